@@ -23,7 +23,9 @@ RULE = (
     "compile-now / other operations and flushes / commit-later histories compared with the same operations flushed in commit order; compiler "
     "in {none, NV transpiler}; 0..3 further statements+flushes after a precompiled commit; blocks with two template names, where an "
     "instantiate() naming only the first (with another value) must fail without touching the block before the complete call; one block "
-    "(template rotations, `d` given or left out) written/compiled/filled/committed 2..4 times on one connection with other values each time.  Non-trivial = a template value "
+    "(template rotations, `d` given or left out) written/compiled/filled/committed 2..4 times on one connection with other values each time; the host either builds a new dict of "
+    "template values for every instantiate() or keeps ONE dict object for the whole connection (updating some entries between rounds) and hands "
+    "that same object to every instantiate(), and a later pre-compiled block may use a template name that an earlier block already used.  Non-trivial = a template value "
     "changes the trace (n mod 2^(d+1) != 0) and >=1 later flush follows a precompiled commit; distinct by (AST, valuation)"
 )
 ASSUMPTIONS = [
@@ -86,7 +88,24 @@ def st_case(draw, tier="quick"):
         for _ in range(draw(st.integers(0, 2))):
             new_stmts += [["add", ["elem", 0, 0], draw(st.integers(0, 3)), None], ["flush"]]
     nv = draw(st.integers(0, 2)) == 0
-    return {"stmts": new_stmts, "outcomes": prog["outcomes"], "qubits": 2, "values": values, "nv": nv, "fail_first": draw(st.booleans())}
+    fail_first = draw(st.booleans())
+    # the host keeps its template values in one dict object and hands that object to every instantiate() of the connection ...
+    share_dict = draw(st.booleans())
+    # ... and a later block may use a template name that an earlier block already used (same name => same value).  Only the first
+    # template rotation of a block ("t<k>") is renamed, so a block with two template names keeps two distinct names
+    seen: Dict[str, int] = {}  # template name -> index of the block that used it first
+    reused = 0  # rotations in a later block that use a name of an earlier block
+    block = 0
+    for s in new_stmts:
+        if s[0] in ("flush", "pflush"):
+            block += 1
+        elif s[0] == "rot" and isinstance(s[3], dict):
+            if seen and s[3]["template"].startswith("t") and draw(st.integers(0, 2)) == 0:
+                s[3] = {"template": draw(st.sampled_from(sorted(seen)))}
+                reused += seen[s[3]["template"]] < block
+            else:
+                seen.setdefault(s[3]["template"], block)
+    return {"stmts": new_stmts, "outcomes": prog["outcomes"], "qubits": 2, "values": values, "nv": nv, "fail_first": fail_first, "share_dict": share_dict, "reused_names": reused}
 
 
 @st.composite
@@ -200,6 +219,13 @@ class Recorder:
         self.no_instantiate = bool(case.get("no_instantiate"))
         self.fail_first = bool(case.get("fail_first")) and flow == "A"
         self.n_failed_first = 0
+        # "share_dict": one dict object, created once by the host, is the `arguments` of every instantiate() on this connection
+        self.shared = dict(case["values"]) if case.get("share_dict") else None
+        self.n_instantiate = 0
+
+    def arguments(self) -> Dict[str, int]:
+        self.n_instantiate += 1
+        return self.shared if self.shared is not None else dict(self.values)
 
     def incomplete_first(self, sub) -> None:
         """an instantiate() call that names only the first template of the block (and a different value for it) fails and
@@ -239,7 +265,7 @@ class Recorder:
                     if rec.held is not None:
                         if not rec.no_instantiate:
                             rec.incomplete_first(rec.held)
-                            rec.held.instantiate(self.conn.app_id, dict(rec.values))
+                            rec.held.instantiate(self.conn.app_id, rec.arguments())
                         self.conn.commit_subroutine(rec.held)
                     self.on_flush(self.n_flush)
                     self.n_flush += 1
@@ -249,7 +275,7 @@ class Recorder:
                         sub = self.conn.compile()
                         if sub is not None:
                             rec.incomplete_first(sub)
-                            sub.instantiate(self.conn.app_id, dict(rec.values))
+                            sub.instantiate(self.conn.app_id, rec.arguments())
                             self.conn.commit_subroutine(sub)
                     else:
                         self.conn.flush()
@@ -323,7 +349,7 @@ def check(case) -> Dict[str, Any]:
                 raise Failure(f"A-vs-B:{key}", case, f"flush {k}: {what} differ: precompiled flow {ra[key]} vs direct flow {rb[key]}")
     if A.error != B.error or len(A.records) != len(B.records):
         raise Failure("A-vs-B:error", case, f"precompiled flow ended with {A.error} after {len(A.records)} flushes, direct flow with {B.error} after {len(B.records)}")
-    info = {"flushes": n, "error": A.error, "failed_first": A.n_failed_first}
+    info = {"flushes": n, "error": A.error, "failed_first": A.n_failed_first, "same_dict_again": A.shared is not None and A.n_instantiate >= 2}
     if not case["nv"] and A.error is None:
         # flow A against direct execution of the program with the values substituted
         prog = {"stmts": _subst(stmts, case["values"]), "outcomes": case["outcomes"], "qubits": case["qubits"]}
@@ -371,7 +397,11 @@ def shard(ctx: Ctx) -> None:
             labels.append("both-flows-raise")
         if info.get("failed_first"):
             labels.append("incomplete-instantiate-before-the-complete-one")
-        stt.case([case["stmts"], case["values"], case["nv"]], nt, labels, sample=case if len(str(case)) < 700 else None)
+        if info.get("same_dict_again"):
+            labels.append("one-dict-object-for->=2-instantiate-calls")
+            if case.get("reused_names"):
+                labels.append("one-dict-object-and-a-template-name-used-again-in-a-later-block")
+        stt.case([case["stmts"], case["values"], case["nv"], bool(case.get("share_dict"))], nt, labels, sample=case if len(str(case)) < 700 else None)
 
     ctx.search(st_case(ctx.tier), body, n, name="c06")
 
@@ -389,7 +419,13 @@ def shard(ctx: Ctx) -> None:
     def body_repeat(case):
         check_repeat(case)
         distinct = len({tuple(sorted(r.items())) for r in case["rounds"]}) >= 2
-        stt.case([case["block"], case["rounds"], case["nv"], case["plain_between"]], distinct, ["repeat", "nv" if case["nv"] else "vanilla", f"rounds:{len(case['rounds'])}"], sample=case)
+        labels = ["repeat", "nv" if case["nv"] else "vanilla", f"rounds:{len(case['rounds'])}"]
+        if case.get("shared_dict"):
+            labels.append("repeat:one-dict-object-for-every-round")
+            used = {name for _, name, _ in case["block"]}
+            if any(not (used <= set(d)) for d in case["deltas"][1:]):
+                labels.append("repeat:one-dict-object,-a-used-entry-left-as-it-was-for-a-later-round")
+        stt.case([case["block"], case["rounds"], case["nv"], case["plain_between"], bool(case.get("shared_dict"))], distinct, labels, sample=case)
 
     ctx.search(st_repeat(), body_repeat, n // 2, name="c06-repeat", salt=4)
 
@@ -407,7 +443,19 @@ def st_repeat(draw):
     n_rounds = draw(st.integers(17, 20)) if meas_reg and draw(st.booleans()) else draw(st.integers(2, 4))
     rounds = [{"t": draw(st.integers(0, 31)), "u": draw(st.integers(0, 31))} for _ in range(n_rounds)]
     # meas_reg: every round works on a fresh qubit and measures it into a register (the outcome handle of a compiled block)
-    return {"repeat": True, "block": block, "rounds": rounds, "nv": draw(st.integers(0, 2)) == 0, "plain_between": draw(st.booleans()) and not meas_reg, "meas_reg": meas_reg,
+    # shared_dict: the host keeps ONE dict of template values for the connection; before each round it updates some (possibly none)
+    # of the entries in place and hands the same object to instantiate().  `rounds` holds the resulting valuation of every round.
+    shared_dict = draw(st.booleans())
+    deltas: List[Dict[str, int]] = []
+    if shared_dict:
+        cur = dict(rounds[0])
+        deltas.append(dict(cur))
+        for i in range(1, n_rounds):
+            delta = {k: rounds[i][k] for k in ("t", "u") if draw(st.integers(0, 2)) > 0}
+            cur.update(delta)
+            deltas.append(delta)
+            rounds[i] = dict(cur)
+    return {"repeat": True, "shared_dict": shared_dict, "deltas": deltas, "block": block, "rounds": rounds, "nv": draw(st.integers(0, 2)) == 0, "plain_between": draw(st.booleans()) and not meas_reg, "meas_reg": meas_reg,
             "outcomes": [draw(st.integers(0, 1)) for _ in range(n_rounds)] if meas_reg else [], "values": {}}
 
 
@@ -419,12 +467,13 @@ def check_repeat(case) -> Dict[str, Any]:
     for flow in ("A", "B"):
         rec = Recorder(case, flow)
         conn, ex = rec.conn, rec.ex
+        shared: Dict[str, int] = {}  # the host's one dict of template values (flow A with "shared_dict")
         try:
             q = Qubit(conn)
             conn.flush()
             start = len(ex.events)
             handles = []
-            for vals in case["rounds"]:
+            for i_round, vals in enumerate(case["rounds"]):
                 if case.get("meas_reg"):
                     q2 = Qubit(conn)
                 for axis, name, d in case["block"]:
@@ -438,7 +487,11 @@ def check_repeat(case) -> Dict[str, Any]:
                     handles.append(q2.measure(store_array=False))
                 if flow == "A":
                     sub = conn.compile()
-                    sub.instantiate(conn.app_id, dict(vals))
+                    if case.get("shared_dict"):
+                        shared.update(case["deltas"][i_round])
+                        sub.instantiate(conn.app_id, shared)
+                    else:
+                        sub.instantiate(conn.app_id, dict(vals))
                     conn.commit_subroutine(sub)
                 else:
                     conn.flush()
